@@ -4,7 +4,7 @@ TagPBMP == <<80, 66, 77, 80>>
 TagHead == <<104, 101, 97, 100>>
 TagPPAL == <<80, 80, 65, 76>>
 TagDat  == <<100, 97, 116, 97>>
-\* a tileset picture is a bitmap value with bc = 8, w = 32, |h| a multiple of 32, 256 colours
+\* a tileset picture is a bitmap value with bc = 8, w = 32, |h| a multiple of 32, up to 256 colours
 IsTileset(b) == b.bc = 8 /\ b.w = 32 /\ Abs(b.h) % 32 = 0
 TopDown(b) == IF b.h > 0 THEN Flip(b) ELSE b        \* top-down bitmaps carry a negative height
 Bgr(c) == <<c[3], c[2], c[1], c[4]>>
@@ -13,7 +13,7 @@ EncodeCustom(b) ==
   TagPBMP \o LE32(1068 + 32 * H)
   \o TagHead \o LE32(20) \o LE32(2) \o LE32(32) \o LE32(H) \o LE32(8) \o LE32(8)
   \o TagPPAL \o LE32(1048) \o TagHead \o LE32(4) \o LE32(1)
-  \o TagDat \o LE32(1024) \o Flatten([i \in 1..256 |-> Bgr(t.palette[i])])
+  \o TagDat \o LE32(1024) \o Flatten([i \in 1..256 |-> Bgr(FullPalette(t)[i])])       \* the palette section has a fixed length: a partial palette is padded with black
   \o TagDat \o LE32(32 * H) \o Flatten(t.rows)
 IsCustom(prefix4) == prefix4 = TagPBMP
 ====
